@@ -5,6 +5,9 @@
 #include <string.h>
 #define V_STUB_MEMZERO 1
 #define V_MEMZERO_SILENT 1
+#if !defined(VNATIVE) && defined(VSIGN_OVERLAP)
+# define V_STUB_MEMMOVE 1
+#endif
 #include "transcript.h"
 #include "private/ed25519_ref10.h"
 #include "crypto_hash_sha512.h"
@@ -87,4 +90,29 @@ void hf_sk_to_curve(void)
     VASSERT("Ed25519 secret key -> X25519 secret key: clamp(SHA-512(seed)[0..32)), the same scalar key generation multiplies the base point with", lg[0].op == E_HONE && lg[0].len == 32 && v_eq(hone_in, vin.sk, 32) && v_eq(out, a, 32) && ln == 1);
     VREACH("hf_sk_to_curve");
 }
+/* ---- combined form crypto_sign_ed25519 with message and output overlapping (C13): m and sm inside one object at a
+ * constant relative offset VDELTA = sm - m; the detached signer is replaced (goto-instrument --replace-calls). ---- */
+#ifndef VDELTA
+# define VDELTA 0
+#endif
+#define VOV 96
+static int n_sd; static const unsigned char *sd_sig, *sd_m, *sd_sk; static unsigned long long sd_mlen; static unsigned char sd_m_at_g; static size_t sd_g;
+int s_sign_detached(unsigned char *sig, unsigned long long *siglen_p, const unsigned char *m, unsigned long long mlen, const unsigned char *sk)
+{ n_sd++; sd_sig = sig; sd_m = m; sd_mlen = mlen; sd_sk = sk; if (sd_g < mlen) sd_m_at_g = m[sd_g]; if (siglen_p) *siglen_p = 64; memset(sig, 0x11, 64); return 0; }
+void hb_sign_overlap(void)
+{
+    VIN_GET(); n_sd = 0;
+    VASSUME(vin.mlen <= 80);
+    static unsigned char big[2 * VOV + 80 + 64 + 8]; unsigned char *m = big + VOV, *sm = big + VOV + (VDELTA), orig = 0; unsigned long long smlen = 9; int r;
+    sd_g = vin.seed[0] % 80;
+#ifndef VNATIVE
+    v_gidx_mm = sd_g;
+#endif
+    if (sd_g < vin.mlen) orig = m[sd_g];
+    r = crypto_sign_ed25519(sm, &smlen, m, vin.mlen, vin.sk);
+    VASSERT("signed message = signature || message: the detached signer is handed the message copy at sm + 64, the output length is mlen + 64", r == 0 && n_sd == 1 && sd_sig == sm && sd_m == sm + 64 && sd_mlen == vin.mlen && sd_sk == vin.sk && smlen == vin.mlen + 64);
+    if (sd_g < vin.mlen) VASSERT("the bytes that get signed are the ORIGINAL message bytes whatever the overlap (same result as with disjoint buffers)", sd_m_at_g == orig);
+    VREACH("hb_sign_overlap");
+}
+
 VNATIVE_MAIN(VENTRY)
